@@ -12,6 +12,26 @@ pub fn ident(rng: &mut Rng, tag: &str) -> Ident {
     Ident { name: format!("{tag}_{}", rng.ascii_name(3, 9)), uuid: ((rng.u64() as u128) << 64) | rng.u64() as u128 }
 }
 
+/// A claimed name as a hostile client may send it: the Login Start codec accepts any string.
+pub fn hostile_name(rng: &mut Rng) -> String {
+    const SPECIAL: &[&str] = &[
+        "\u{0}", "\t", "\n", "\r\n", "\u{1b}[0m", "\u{7f}", "\u{85}", "\u{9f}", "\u{200b}", "\u{202e}", " ", "&", "=", "#", "?", "%00", "%", "+", "/", "\\", "..", "\"", "'", ";",
+        "ü", "Ω", "名", "😀", "&serverId=-1a2b", "\u{feff}",
+    ];
+    let base = rng.ascii_name(2, 8);
+    let sp = *rng.pick(SPECIAL);
+    match rng.below(5) {
+        0 => format!("{sp}{base}"),
+        1 => format!("{base}{sp}"),
+        2 => {
+            let cut = rng.usize_below(base.len() - 1) + 1;
+            format!("{}{sp}{}", &base[..cut], &base[cut..])
+        }
+        3 => format!("{sp}{base}{}", *rng.pick(SPECIAL)),
+        _ => sp.repeat(rng.range(1, 4) as usize),
+    }
+}
+
 pub fn props(rng: &mut Rng, n: usize) -> Vec<Prop> {
     (0..n)
         .map(|i| Prop {
